@@ -33,6 +33,7 @@ type Ctx struct {
 	modPath     string
 	Inlined     []string // "caller <- callee" for every call folded back by the helper-inlining normalisation
 	Unrolled    []string // notes of the loop / table normalisation
+	ConstTables []string // package-level variables treated as constant tables
 	DeadHelpers []string // unexported helpers left without any reference after inlining (dropped from ModFuncs)
 	// renamed anchors (anchors.go)
 	anchorAlias map[string]*ssa.Function
@@ -140,7 +141,28 @@ func Load(dir, goarch, modPath string, minPkgs int) (*Ctx, error) {
 		// second normalisation: loops with a compile-time constant trip count are unrolled and local tables
 		// (composite literals accessed by constant indices) dissolved, see xt/ssa/unroll.go. Nothing on the
 		// tree the rules were written for qualifies.
-		c.Unrolled = ssa.NormalizeLoops(c.ModFuncs, ssa.UnrollOptions{DataOnly: true})
+		// constant package-level tables (a composite literal of constants assigned once by the package
+		// initializer, never written and never handed out): reads of their cells and lengths become constants
+		// before the loops over them are looked at, see xt/ssa/consttab.go
+		ct := ssa.AnalyzeConstGlobals(c.ModFuncs)
+		c.Unrolled = append(c.Unrolled, ct.Rewrite(c.ModFuncs, false)...)
+		c.Unrolled = append(c.Unrolled, ssa.NormalizeLoops(c.ModFuncs, ssa.UnrollOptions{DataOnly: true})...)
+		c.ConstTables = ct.Notes
+		// third normalisation: a merge that selects among integer constants which then serve as slice bounds
+		// (switch kind { case A: n = 4; case B: n = 16 } ... b[8:8+n]) is duplicated per incoming edge, see
+		// xt/ssa/split.go. Nothing on the tree the rules were written for qualifies.
+		// (the two feed each other: a split turns the index of a table read into a constant, a table read that
+		// became a φ of constants is the next merge to split)
+		ssa.CanonCompares(c.ModFuncs)
+		for round := 0; round < 3; round++ {
+			n1 := ct.Rewrite(c.ModFuncs, true)
+			n2 := ssa.SplitConstMerges(c.ModFuncs)
+			c.Unrolled = append(append(c.Unrolled, n1...), n2...)
+			if len(n1)+len(n2) == 0 {
+				break
+			}
+		}
+		ssa.CanonCompares(c.ModFuncs)
 	}
 	return c, nil
 }
